@@ -8,7 +8,7 @@ import (
 	"github.com/rpcpool/yellowstone-faithful/indexmeta"
 )
 
-// verifC13Header: current format header as createHeader lays it out (u32 size, magic, u64
+// verifC13Header: current format header as the writer lays it out (u32 size, magic, u64
 // version, metadata, u64 count, (prefix, u64 offset) pairs) with TWO prefixes instead of the
 // writer's 65 536 (readHeader accepts any count; prefixes without a pair stay "absent").
 func verifC13Header(offA, offB uint64) []byte {
@@ -16,7 +16,8 @@ func verifC13Header(offA, offB uint64) []byte {
 	meta.Add([]byte("epoch"), []byte{7, 0, 0, 0, 0, 0, 0, 0})
 	mb, _ := meta.MarshalBinary()
 	var body []byte
-	body = append(body, _Magic[:]...)
+	mg := Magic()
+	body = append(body, mg[:]...)
 	body = binary.LittleEndian.AppendUint64(body, Version)
 	body = append(body, mb...)
 	body = binary.LittleEndian.AppendUint64(body, 2)
